@@ -286,6 +286,7 @@ def check_oracle(ctx, cfg, step, ms, seg, spec0, entries, desc, L=None, pcs=None
             if prev_src != s:
                 runs[s] += 1
         prev_src = s
+    on_axis = any(p[2] is None for p in pcs)     # a sample may sit exactly on the axis, whose sector is arbitrary (atan2(0,0))
     pcs = [p for p in pcs if p[2] is not None]
     ok = True
     for j in range(nb):
@@ -314,7 +315,7 @@ def check_oracle(ctx, cfg, step, ms, seg, spec0, entries, desc, L=None, pcs=None
         ctx.fail('C10:%s:total-vs-active-chord' % cfg['geo'],
                  'sum of entries %r, chord in active cells %r (%d active runs), dt %r' % (tot, active_chord, active_runs, dt), desc)
         ok = False
-    if all(int(vm[c]) >= 0 for _, _, c in pcs):
+    if all(int(vm[c]) >= 0 for _, _, c in pcs) and not (on_axis and (vm[0, :, :] < 0).any()):
         if abs(tot - L) > 1e-9 * L + slack:
             ctx.fail('C10:%s:total-vs-length' % cfg['geo'], 'all traversed cells active: sum of entries %r != path length %r' % (tot, L), desc)
             ok = False
@@ -1002,6 +1003,19 @@ def _grazes(cfg, o, d):
     return False
 
 
+def _in_phi_face(cfg, seg):
+    dphi = cfg['steps'][1]
+    hit = 0
+    for p in (seg[:3], seg[3:]):
+        if math.hypot(p[0], p[1]) < 1e-9:
+            hit += 1
+            continue
+        f = math.degrees(math.atan2(p[1], p[0])) % dphi
+        if min(f, dphi - f) < 1e-7:
+            hit += 1
+    return hit == 2
+
+
 def period_stream(ctx, n_cases, cap):
     """S: rotating a segment by the period about the axis leaves the spectrum unchanged (up to samples that sit on a cell face)"""
     rng = ctx.rng
@@ -1015,6 +1029,10 @@ def period_stream(ctx, n_cases, cap):
         cls, seg = seg_cyl(rng, cfg, False)
         L, pcs = pieces(cfg, seg)
         if pcs is None:
+            continue
+        if _in_phi_face(cfg, seg):
+            # the whole path lies in a cell face phi = k*dphi: which side every sample falls on is decided by rounding
+            ctx.count('P:path-in-a-phi-face-skipped')
             continue
         step = rnd_step(rng, cfg, max(L, 1e-6), False, cap)
         k = rng.randint(1, int(round(360.0 / cfg['period'])))
